@@ -17,9 +17,8 @@ SyncBurstOK(t) ==
     /\ t.ncompleted = t.n          \* ... all of them completed
     /\ t.nbad = 0                  \* ... each with the single-job result (output, tag, status)
     /\ t.errno = 0
-    /\ t.qsz_after = 0 /\ t.flush_null = 1
-    /\ t.abi = 0
-DirectOK(t) == t.job_st = 3 /\ t.same = 1 /\ t.abi = 0
+    /\ t.qsz_after = 0 /\ t.flush_null = 1     \* (the abi bit of these events is judged by C18)
+DirectOK(t) == t.job_st = 3 /\ t.same = 1
 MixOK(t) == AllowKF2 \/ (t.burst_ret = 1 /\ t.async_ok_after_flush = 1)
 
 Init == l = 1
